@@ -48,6 +48,8 @@ func c06(c *Ctx) {
 		return
 	}
 	tr := an.NewTracer()
+	r.Rule("R06.F", "a fingerprint of the configured key anywhere in the server's list is accepted: once an element compared equal, the not-found abort cannot happen (early exit, or a flag that stays true)", 1)
+	c06FingerprintSearch(c, mk, tr)
 	// success exits: returns whose value is nil or derives from SaveSession's result
 	var saves []ssa.Instruction
 	var stEnc, stSvc []ssa.Instruction
@@ -210,4 +212,189 @@ func c06FixedWidths(c *Ctx) {
 			}
 		}
 	}
+}
+
+// c06FingerprintSearch: R06.F.  The server announces the fingerprints of all its keys; the client must go on when any
+// of them is its own (C07 decides the converse: it aborts when none is).
+func c06FingerprintSearch(c *Ctx, mk *ssa.Function, tr *an.Tracer) {
+	r := c.R
+	key := "fingerprint-search:any-match-accepted"
+	isElem := func(v ssa.Value) bool { return tr.HasOrigin(v, "objects.ResPQ.Fingerprints[") }
+	isOurs := func(v ssa.Value) bool {
+		return an.NewDeps(c.inRepoOrDry).Of(v).Has(load.KeysPkg + ".RSAFingerprint")
+	}
+	matches := func(cd *an.Cond) bool {
+		return cd.Kind == "eq" && cd.X != nil && cd.Y != nil && ((isElem(cd.X) && isOurs(cd.Y)) || (isElem(cd.Y) && isOurs(cd.X)))
+	}
+	// form 1: the comparison is branched on
+	_, execAll := an.ReachExec(mk, nil, nil)
+	for _, i := range an.Ifs(mk) {
+		cd, ok := an.Classify(i)
+		if !ok || !matches(cd) {
+			continue
+		}
+		eq := cd.EdgeWhen(true)
+		// the test(s) of the result: branches that fold one way when the equal edge is never taken
+		_, execCut := an.ReachExec(mk, map[an.Edge]bool{eq: true}, nil)
+		after := an.ReachFrom(mk, eq, nil)
+		found := false
+		for _, t := range an.Ifs(mk) {
+			if t == i {
+				continue
+			}
+			for s := 0; s < 2; s++ {
+				hit, miss := an.Edge{From: t.Block(), Succ: s}, an.Edge{From: t.Block(), Succ: 1 - s}
+				if !(execAll[hit] && execAll[miss] && !execCut[hit] && execCut[miss]) {
+					continue
+				}
+				// `miss` is the not-found edge: after a match it must be dead
+				found = true
+				_, execAfter := reachFromExec(mk, eq)
+				if after[t.Block()] && execAfter[miss] {
+					r.Violate("R06.F", key, c.pos(t.Cond.Pos()), sprintf("after an element compared equal at %s the not-found edge of this test can still be taken: a match that is not the last element of the list is forgotten", c.pos(i.Cond.Pos())))
+				} else {
+					r.Hold("R06.F", key, c.pos(i.Cond.Pos()), "once the equal edge is taken the not-found edge is dead")
+				}
+			}
+		}
+		if found {
+			return
+		}
+	}
+	// form 2: the comparison is a value that is accumulated in a flag
+	for _, b := range mk.Blocks {
+		for _, in := range b.Instrs {
+			v, ok := in.(*ssa.BinOp)
+			if !ok {
+				continue
+			}
+			cd, ok := an.ClassifyValue(v)
+			if !ok || !matches(cd) || v.Referrers() == nil {
+				continue
+			}
+			acc := flagAccumulators(v)
+			if len(acc) == 0 {
+				continue
+			}
+			bad := ""
+			for p := range acc {
+				for k, e := range p.Edges {
+					pred := p.Block().Preds[k]
+					switch x := e.(type) {
+					case *ssa.Const:
+						if x.Value != nil && x.Value.String() == "false" && blockReaches(v.Block(), pred) {
+							bad = sprintf("the flag is reset to false on an edge after the comparison (%s)", c.pos(p.Pos()))
+						}
+					case *ssa.Phi:
+						if !acc[x] {
+							bad = "the flag takes an unrelated value"
+						}
+					default:
+						if e == ssa.Value(v) {
+							// allowed only as `flag || v`: the edge is taken when an accumulator is false
+							okOr := false
+							for q := range acc {
+								for _, t := range an.Ifs(mk) {
+									if an.StripBoolWrappers(t.Cond) == ssa.Value(q) && t.Block().Dominates(v.Block()) {
+										okOr = true
+									}
+								}
+							}
+							if !okOr {
+								bad = sprintf("the flag is overwritten by each comparison (%s): only a match in the last position survives the loop", c.pos(v.Pos()))
+							}
+						} else {
+							bad = "the flag takes an unrelated value"
+						}
+					}
+				}
+			}
+			r.Check(bad == "", "R06.F", key, c.pos(v.Pos()), "comparison accumulated in a flag: "+bad)
+			return
+		}
+	}
+	r.Undecide("R06.F", key, c.pos(mk.Pos()), "no comparison of an element of res_pq.fingerprints with RSAFingerprint(publicKey) found in makeAuthKey")
+}
+
+func reachFromExec(fn *ssa.Function, e an.Edge) (map[*ssa.BasicBlock]bool, map[an.Edge]bool) {
+	return an.ReachFromExec(fn, e, nil)
+}
+
+func blockReaches(from, to *ssa.BasicBlock) bool {
+	seen := map[*ssa.BasicBlock]bool{}
+	var walk func(b *ssa.BasicBlock) bool
+	walk = func(b *ssa.BasicBlock) bool {
+		if b == to {
+			return true
+		}
+		if seen[b] {
+			return false
+		}
+		seen[b] = true
+		for _, s := range b.Succs {
+			if walk(s) {
+				return true
+			}
+		}
+		return false
+	}
+	return walk(from)
+}
+
+// flagAccumulators: the phis a boolean value flows into (a `found` flag and its loop-carried copies).
+func flagAccumulators(v ssa.Value) map[*ssa.Phi]bool {
+	acc := map[*ssa.Phi]bool{}
+	var grow func(x ssa.Value)
+	grow = func(x ssa.Value) {
+		if x.Referrers() == nil {
+			return
+		}
+		for _, rf := range *x.Referrers() {
+			if p, ok := rf.(*ssa.Phi); ok && !acc[p] {
+				acc[p] = true
+				grow(p)
+			}
+		}
+	}
+	grow(v)
+	return acc
+}
+
+// flagTrueImplies: a flag made of the accumulator phis can only be true when v was true at some point: every
+// incoming value is false, v, another accumulator, or `true` on the true edge of a test of an accumulator.
+func flagTrueImplies(fn *ssa.Function, acc map[*ssa.Phi]bool, v ssa.Value) bool {
+	for p := range acc {
+		for k, e := range p.Edges {
+			pred := p.Block().Preds[k]
+			switch x := e.(type) {
+			case *ssa.Const:
+				if x.Value == nil {
+					return false
+				}
+				if x.Value.String() == "true" {
+					// only as the short-circuit arm of `flag || …`
+					ok := false
+					if len(pred.Instrs) > 0 {
+						if t, isIf := pred.Instrs[len(pred.Instrs)-1].(*ssa.If); isIf && pred.Succs[0] == p.Block() {
+							if q, isPhi := an.StripBoolWrappers(t.Cond).(*ssa.Phi); isPhi && acc[q] && an.StripBoolWrappers(t.Cond) == t.Cond {
+								ok = true
+							}
+						}
+					}
+					if !ok {
+						return false
+					}
+				}
+			case *ssa.Phi:
+				if !acc[x] {
+					return false
+				}
+			default:
+				if e != v {
+					return false
+				}
+			}
+		}
+	}
+	return true
 }
